@@ -29,6 +29,7 @@ def _rec(case, opts_obj=None):
 
 
 def _variant(case, rel, rng):
+    case['no_counts'] = True        # pairs keep their sample values (a re-quantisation of each side on its own would break the relation between them)
     b = copy.deepcopy(case)
     if rel == 'C09.mirror':
         case['opts']['center_extrema'] = 'trough'
@@ -46,7 +47,7 @@ def _variant(case, rel, rng):
         cfac = float(rng.choice([0.125, 0.25, 0.5, 2.0, 4.0]))
         for c in (case, b):
             fek = c['opts'].get('find_extrema_kwargs') or {}
-            if 'n_seconds' in (fek.get('filter_kwargs') or {}):
+            if (fek.get('filter_kwargs') or {}).get('n_seconds') is not None:
                 fek['filter_kwargs'] = {'n_cycles': 3}
             if c['opts'].get('burst_kwargs'):
                 c['opts']['burst_kwargs'].pop('min_burst_duration', None)
